@@ -143,8 +143,10 @@ func runC12(c *Ctx) {
 				continue
 			}
 			a := call.Common().Args
-			lim := T(a[len(a)-2])
-			ok := !filters || lim.Op != "param"
+			lim := ff.Term(a[len(a)-2])
+			// … nor by anything computed from it (limit + "number of staged deletions" is only as
+			// good as that count, which no rule here can vouch for)
+			ok := !filters || !lim.Any(func(t *Term) bool { return t.Op == "param" })
 			c.Require("C12.R2 truncate-after-filter", FuncKey(fn)+" ⇒ "+name+"(limit)", p.InstrPos(call),
 				"scan results are filtered (deleted entries skipped), so the caller's limit must not truncate the underlying scan", ok, "limit argument: "+lim.String())
 		}
@@ -353,7 +355,7 @@ func runC12(c *Ctx) {
 		okL := false
 		for _, b := range blocksDeep(merge) {
 			for _, in := range b.Instrs {
-				if sl, isS := in.(*ssa.Slice); isS && sl.High != nil && T(sl.High).Op == "param" && sortCall != nil && instrDominates(sortCall, sl) {
+				if sl, isS := in.(*ssa.Slice); isS && sl.High != nil && factsOf(merge).Term(sl.High).Op == "param" && sortCall != nil && instrDominates(sortCall, sl) {
 					okL = true
 				}
 			}
@@ -362,13 +364,28 @@ func runC12(c *Ctx) {
 		// shadowing: stored entries are appended only when the key is not among the cached ones
 		mf := factsOf(merge)
 		okS := false
-		for _, call := range AllCalls(merge) {
+		for _, call := range AllCallsDeep(merge) {
 			if CalleeName(call.Common()) != "builtin:append" {
 				continue
 			}
 			for _, f := range mf.FactsAt(call.Block()) {
 				if !f.IsCmp && !f.Truth && f.B.Op == "extract" && f.B.Args[0].Op == "lookup" {
 					okS = true
+				}
+				// a set kept as map[key]bool and asked without comma-ok: absent reads false, so the
+				// test is the same as long as only `true` is ever stored
+				if !f.IsCmp && !f.Truth && f.B.Op == "lookup" {
+					onlyTrue := true
+					for _, b := range blocksDeep(merge) {
+						for _, in := range b.Instrs {
+							if mu, isMU := in.(*ssa.MapUpdate); isMU && T(mu.Map).String() == f.B.Args[0].String() && T(mu.Value).String() != "true" {
+								onlyTrue = false
+							}
+						}
+					}
+					if onlyTrue {
+						okS = true
+					}
 				}
 			}
 		}
@@ -391,7 +408,11 @@ func runC12(c *Ctx) {
 				n++
 				isClose := func(in ssa.Instruction) bool {
 					cl, ok := in.(ssa.CallInstruction)
-					return ok && strings.HasSuffix(CalleeName(cl.Common()), "pebble.Iterator).Close") && len(cl.Common().Args) > 0 && stripConv(ArgK(cl, 0)) == ssa.Value(prm)
+					if !ok || !strings.HasSuffix(CalleeName(cl.Common()), "pebble.Iterator).Close") || len(cl.Common().Args) == 0 {
+						return false
+					}
+					// the same iterator, also when the close sits in a helper that was handed it
+					return stripConv(ArgK(cl, 0)) == ssa.Value(prm) || factsOf(fn).Term(ArgK(cl, 0)).String() == T(prm).String()
 				}
 				// deferred close counts
 				deferred := false
